@@ -102,10 +102,11 @@ struct Shadow {
   Lattice L;                 // verified value (generator form)
   std::vector<Cg> C;         // PPL-reported congruences (verified to denote L)
   std::vector<RGen> G;       // PPL-reported generators
-  bool nonunit;              // some reported point/parameter has a divisor != 1
-  Shadow() : nonunit(false) {}
+  bool nonunit;              // some reported point/parameter (plain or minimized system) has a divisor != 1
+  bool marked;               // the object carries the 'marked empty' flag
+  Shadow() : nonunit(false), marked(false) {}
 };
-static std::string cls_of(const Shadow& s) { return s.L.n == 0 ? "dim0" : s.L.empty ? "empty" : s.nonunit ? "point-divisor!=1" : "unit-divisors"; }
+static std::string cls_of(const Shadow& s) { return s.L.n == 0 ? "dim0" : s.L.empty ? (s.marked ? "empty-marked" : "empty-unmarked") : s.nonunit ? "point-divisor!=1" : "unit-divisors"; }
 static std::string cls_of(const Shadow& a, const Shadow& b) {
   if (a.L.n == 0) return "dim0";
   if (a.L.empty || b.L.empty) return "empty-operand";
@@ -144,11 +145,13 @@ static bool check_dd(const Grid& g, const std::string& where, Shadow& S) {
   S.G = conv(c3.grid_generators(), n);
   std::vector<RGen> GM = conv(c4.minimized_grid_generators(), n);
   S.nonunit = false; for (size_t i = 0; i < S.G.size(); ++i) if (S.G[i].nonunit) S.nonunit = true;
+  for (size_t i = 0; i < GM.size(); ++i) if (GM[i].nonunit) S.nonunit = true;
   Lattice LG = lattice_of(S.G, n);
   S.L = LG;
   checked(); hx::count("dd_checks");
   std::string st = status_line(g);
-  std::string cls = n == 0 ? "dim0" : LG.empty ? "empty" : S.nonunit ? "point-divisor!=1" : "unit-divisors";
+  S.marked = st.find("+EM") != std::string::npos;
+  std::string cls = n == 0 ? "dim0" : LG.empty ? (S.marked ? "empty-marked" : "empty-unmarked") : S.nonunit ? "point-divisor!=1" : "unit-divisors";
   // 1. every reported generator satisfies every reported congruence (plain arithmetic)
   if (!LG.empty) for (size_t i = 0; i < S.G.size(); ++i) for (size_t k = 0; k < S.C.size(); ++k) {
     const RGen& r = S.G[i]; const Cg& c = S.C[k]; bool ok;
@@ -401,6 +404,7 @@ static bool make_op(Op& op, int n, const Shadow& SA, const std::string& profile)
     op.apply = [=](Grid& A, const Grid& B) { *res = A.simplify_using_context_assign(B) ? 1 : 0; };
     op.verify = [=](const Shadow& A, const Shadow& B, const Shadow& R) {
       checked(); hx::count("op_checks"); std::string cls = cls_of(A, B);
+      if (n > 0 && A.L.empty && ref::is_universe(B.L)) cls = "receiver-empty,context-universe";
       Lattice M = ref::intersect(A.L, B.L), MR = ref::intersect(R.L, B.L);
       if ((*res == 1) != !M.empty) { violation("C05.op.simplify_using_context_assign.boolean:" + cls, std::string(M.empty ? "returned true although" : "returned false although") + " the meet is " + show(M)); return; }
       if (!M.empty) {
@@ -535,6 +539,7 @@ static bool unmarked_empty(const Grid& g, const Lattice& L) { return L.empty && 
 // A wrong answer of a pure query builds no state: report it and let the case go on.
 static void qviol(const std::string& key, const std::string& detail) { violation(key, detail); hx::st().case_tainted = false; hx::count("soft_violations"); }
 static const char* tf(bool b) { return b ? "true" : "false"; }
+static std::string g_query;   // name of the last query group executed (attribution of post-query state checks)
 
 static void run_queries(Grid& A, const Grid& B, int n, const Shadow& SA, const Shadow& SB, const std::string& pre, int ai, int bi) {
   const Lattice& LA = SA.L; const Lattice& LB = SB.L;
@@ -544,7 +549,7 @@ static void run_queries(Grid& A, const Grid& B, int n, const Shadow& SA, const S
   int which = rnd(0, 13);
   switch (which) {
   case 0: {
-    tr(pre + ".preds()"); hx::count("q.preds");
+    g_query = "preds"; tr(pre + ".preds()"); hx::count("q.preds");
     Lattice c = LA; ref::canonicalize(c);
     bool e = A.is_empty(); checked(); if (e != !ne) qviol("C05.q.is_empty:" + cls, std::string("PPL ") + tf(e) + ctx);
     bool u = A.is_universe(); checked(); if (u != (ne && (int) c.lines.size() == n)) qviol("C05.q.is_universe:" + cls, std::string("PPL ") + tf(u) + ctx);
@@ -553,7 +558,7 @@ static void run_queries(Grid& A, const Grid& B, int n, const Shadow& SA, const S
     bool t = A.is_topologically_closed(); checked(); if (!t) qviol("C05.q.is_topologically_closed:" + cls, "false" + ctx);
     break; }
   case 1: case 2: {
-    tr(pre + ".binary_preds(#" + std::to_string(bi) + ")"); hx::count("q.binary");
+    g_query = "binary_preds"; tr(pre + ".binary_preds(#" + std::to_string(bi) + ")"); hx::count("q.binary");
     std::string c2 = cls2 + (ai == bi ? ",alias" : "");
     std::string cx = " A " + show(LA) + " B " + show(LB);
     bool rc = ref::included(LB, LA), rcb = ref::included(LA, LB);
@@ -565,7 +570,7 @@ static void run_queries(Grid& A, const Grid& B, int n, const Shadow& SA, const S
     break; }
   case 3: case 4: {
     Congruence cg = rcg(n);
-    tr(pre + ".relation_with(" + str(cg) + ")"); hx::count("q.relation_with_cg");
+    g_query = "relation_with_cg"; tr(pre + ".relation_with(" + str(cg) + ")"); hx::count("q.relation_with_cg");
     Poly_Con_Relation r = A.relation_with(cg);
     Cg rc = conv(cg, n);
     bool some, every; ref::vs_vs_modulus(ref::values(LA, rc.a, Q(-rc.b)), rc.m, some, every);
@@ -583,7 +588,7 @@ static void run_queries(Grid& A, const Grid& B, int n, const Shadow& SA, const S
     int kind = rnd(0, 9);
     Linear_Expression e = rexpr(n);
     Constraint c = kind < 3 ? (e == 0) : kind < 7 ? (e >= 0) : (e > 0);
-    tr(pre + ".relation_with(" + str(c) + ")"); hx::count("q.relation_with_c");
+    g_query = std::string("relation_with_c") + (c.is_equality() ? "" : c.is_strict_inequality() ? ".strict" : ".nonstrict"); tr(pre + ".relation_with(" + str(c) + ")"); hx::count("q.relation_with_c");
     Poly_Con_Relation r = A.relation_with(c);
     Q b; Vec a = vec_of(e, n, b);
     ValSet v = ref::values(LA, a, b);
@@ -595,7 +600,7 @@ static void run_queries(Grid& A, const Grid& B, int n, const Shadow& SA, const S
     bool included = every, disjoint = !some;
     bool b_dis = r.implies(Poly_Con_Relation::is_disjoint()), b_inc = r.implies(Poly_Con_Relation::is_included()), b_str = r.implies(Poly_Con_Relation::strictly_intersects()), b_sat = r.implies(Poly_Con_Relation::saturates());
     checked();
-    std::string c3 = cls + (c.is_equality() ? ",equality" : c.is_strict_inequality() ? ",strict" : ",nonstrict");
+    std::string c3 = cls + (c.is_equality() ? ",equality" : c.is_strict_inequality() ? ",strict" : ",nonstrict") + (((int) c.space_dimension() < n && !c.is_equality()) ? ",constraint-dim<space-dim" : "");
     std::string d = str(c) + " -> " + str(r) + " expected " + (disjoint ? "disjoint " : "") + (included ? "included " : "") + (!disjoint && !included ? "strictly_intersects" : "") + ctx;
     if (b_dis != disjoint) qviol("C05.q.relation_with_c.is_disjoint:" + c3, d);
     else if (b_inc != included) qviol("C05.q.relation_with_c.is_included:" + c3, d);
@@ -612,13 +617,13 @@ static void run_queries(Grid& A, const Grid& B, int n, const Shadow& SA, const S
         mpz_class l = 1; for (int d = 0; d < n; ++d) { mpz_class den = x[d].get_den(); mpz_lcm(l.get_mpz_t(), l.get_mpz_t(), den.get_mpz_t()); }
         Linear_Expression e; for (int d = 0; d < n; ++d) { Q v = x[d] * Q(l); e += Coefficient(v.get_num()) * Variable(d); }
         int sc = rnd(1, 2); e *= sc; g = par ? parameter(e, Coefficient(l * sc)) : grid_point(e, Coefficient(l * sc)); }
-      gs = str(g); tr(pre + ".relation_with(" + gs + ")"); hx::count("q.relation_with_gg");
+      g_query = "relation_with_gg"; gs = str(g); tr(pre + ".relation_with(" + gs + ")"); hx::count("q.relation_with_gg");
       r = A.relation_with(g);
       RGen rg = conv(g, n);
       subs = ne && (rg.kind == 'p' ? ref::member(LA, rg.v) : rg.kind == 'q' ? [&]{ Lattice c = LA; ref::canonicalize(c); return ref::dir_member(c, rg.v); }() : ref::line_member(LA, rg.v));
     } else {
       Generator g = rand_gen(n, true, false);
-      gs = str(g); tr(pre + ".relation_with(" + gs + ")"); hx::count("q.relation_with_g");
+      g_query = "relation_with_g"; gs = str(g); tr(pre + ".relation_with(" + gs + ")"); hx::count("q.relation_with_g");
       r = A.relation_with(g);
       ref::Gen rg = ref::conv(g, n);
       subs = ne && ((rg.kind == ref::Gen::POINT || rg.kind == ref::Gen::CLOSURE_POINT) ? ref::member(LA, rg.v) : ref::line_member(LA, rg.v));
@@ -628,7 +633,7 @@ static void run_queries(Grid& A, const Grid& B, int n, const Shadow& SA, const S
     break; }
   case 7: case 8: {
     Linear_Expression e = rexpr(n, 3, 40); bool mx = (which == 7);
-    tr(pre + (mx ? ".maximize(" : ".minimize(") + str(e) + ")"); hx::count("q.max_min");
+    g_query = "max_min"; tr(pre + (mx ? ".maximize(" : ".minimize(") + str(e) + ")"); hx::count("q.max_min");
     Coefficient num = 12345, den = 6789; bool att = false; Generator g(point());
     bool ok = mx ? A.maximize(e, num, den, att, g) : A.minimize(e, num, den, att, g);
     Coefficient num2 = 12345, den2 = 6789; bool att2 = false; bool ok2 = mx ? A.maximize(e, num2, den2, att2) : A.minimize(e, num2, den2, att2);
@@ -652,14 +657,14 @@ static void run_queries(Grid& A, const Grid& B, int n, const Shadow& SA, const S
     if (ref::dot(a, rg.v) + b != val) qviol("C05.q." + nm + ".witness_value:" + c3, "witness " + str(g) + " does not evaluate to " + showq(val));
     break; }
   case 9: {
-    tr(pre + ".affine_dimension()"); hx::count("q.affine_dimension");
+    g_query = "affine_dimension"; tr(pre + ".affine_dimension()"); hx::count("q.affine_dimension");
     int ad = A.affine_dimension(); int rad = ref::affine_dim(LA);
     checked(); if (ad != rad) { std::ostringstream o; o << "PPL " << ad << " expected " << rad << ctx; qviol("C05.q.affine_dimension:" + cls, o.str()); }
     if ((int) A.space_dimension() != n) qviol("C05.q.space_dimension:" + cls, "wrong space dimension");
     break; }
   case 10: {
     if (n == 0) return;
-    int v = rnd(0, n - 1); tr(pre + ".constrains(" + str(Variable(v)) + ")"); hx::count("q.constrains");
+    g_query = "constrains"; int v = rnd(0, n - 1); tr(pre + ".constrains(" + str(Variable(v)) + ")"); hx::count("q.constrains");
     bool c = A.constrains(Variable(v));
     if (!ne) return;   // the documentation is silent about empty grids
     Vec e(n); e[v] = 1; bool rc = !ref::line_member(LA, e);
@@ -667,7 +672,7 @@ static void run_queries(Grid& A, const Grid& B, int n, const Shadow& SA, const S
     checked(); if (c != rc) qviol("C05.q.constrains:" + cls + (axis ? ",axis-line-generator" : ""), std::string("PPL ") + tf(c) + " for " + str(Variable(v)) + ctx);
     break; }
   case 11: case 12: {
-    Linear_Expression e = rexpr(n, 3, 40); tr(pre + ".frequency(" + str(e) + ")"); hx::count("q.frequency");
+    Linear_Expression e = rexpr(n, 3, 40); g_query = "frequency"; tr(pre + ".frequency(" + str(e) + ")"); hx::count("q.frequency");
     Coefficient fn = 777, fd = 778, vn = 779, vd = 780; bool f = A.frequency(e, fn, fd, vn, vd);
     Q b; Vec a = vec_of(e, n, b); ValSet v = ref::values(LA, a, b);
     bool defined = (v.kind == ValSet::CONST || v.kind == ValSet::PERIODIC);
@@ -685,7 +690,7 @@ static void run_queries(Grid& A, const Grid& B, int n, const Shadow& SA, const S
     }
     break; }
   case 13: { // descriptions as constraints: equalities satisfied by the grid, same affine dimension
-    tr(pre + ".constraints()"); hx::count("q.constraints");
+    g_query = "constraints"; tr(pre + ".constraints()"); hx::count("q.constraints");
     Grid c1(A); Constraint_System cs = coin() ? c1.constraints() : c1.minimized_constraints();
     checked();
     if (!ne) break;
@@ -911,7 +916,10 @@ static void run_case(uint64_t) {
           if (dump(*twin[ai]) != dump(A)) hx::count("lockstep_text_diverged");
         }
       }
-      else if ((kind -= w_mut) < w_query) { receiver = -1; opn = "query"; run_queries(A, B, n, SA, SB, pre.str(), ai, bi); if (nontrivial(SA.L)) hx::distinct("query|" + stl + "|" + shp + (SA.nonunit ? "|nu" : "")); }
+      else if ((kind -= w_mut) < w_query) { receiver = -1; opn = "query"; g_query = "query"; run_queries(A, B, n, SA, SB, pre.str(), ai, bi); opn = g_query;
+        // a query must leave the object in a consistent state denoting the same set
+        Shadow R; if (!check_dd(A, "post-query." + g_query, R)) return;
+        checked(); if (!ref::same(SA.L, R.L)) { violation("C05.dd.query_changed_value." + g_query + ":" + cls_of(SA), "before " + show(SA.L) + " after " + show(R.L)); return; } if (nontrivial(SA.L)) hx::distinct("query|" + stl + "|" + shp + (SA.nonunit ? "|nu" : "")); }
       else if ((kind -= w_query) < w_copy) {
         int how = rnd(0, 4); opn = "copy";
         if (how == 0) { tr(pre.str() + " = copy(#" + std::to_string(bi) + ")"); hx::count("op.copy_construct"); if (ai != bi) { delete pool[ai]; pool[ai] = new Grid(B); delete twin[ai]; twin[ai] = 0; checked(); Lattice Rl = obs(*pool[ai]); if (!ref::same(Rl, SB.L)) violation("C13.grid.copy_differs", "copy " + show(Rl) + " source " + show(SB.L)); } }
